@@ -14,8 +14,8 @@ package simrt
 
 import (
 	"fmt"
-	"sort"
 	"runtime"
+	"sort"
 	"strings"
 	"sync"
 	"time"
